@@ -203,32 +203,34 @@ type engine struct {
 	cmShm  [2]wazero.CompiledModule // owner and importer of the shared memory
 	small  []byte
 	active *runner
+	et     bool // RuntimeConfig.WithCloseOnContextDone(true)
 }
 
-func engineConfig(name string) wazero.RuntimeConfig {
+func engineConfig(name string, et bool) wazero.RuntimeConfig {
 	cfg := wazero.NewRuntimeConfigInterpreter()
 	if name == "compiler" {
 		cfg = wazero.NewRuntimeConfigCompiler()
 	}
-	return cfg.WithCoreFeatures(api.CoreFeaturesV2 | experimental.CoreFeaturesThreads)
+	return cfg.WithCoreFeatures(api.CoreFeaturesV2 | experimental.CoreFeaturesThreads).WithCloseOnContextDone(et)
 }
 
-var engines []*engine
+var engines = map[bool][]*engine{}
 
-func getEngines() []*engine {
-	if engines != nil {
-		return engines
+// getEngines: the two runtimes (interpreter, compiler) of this child for the
+// given WithCloseOnContextDone setting.
+func getEngines(et bool) []*engine {
+	if engines[et] == nil {
+		for _, name := range []string{"interpreter", "compiler"} {
+			engines[et] = append(engines[et], newEngine(name, et))
+		}
 	}
-	for _, name := range []string{"interpreter", "compiler"} {
-		engines = append(engines, newEngine(name))
-	}
-	return engines
+	return engines[et]
 }
 
-func newEngine(name string) *engine {
+func newEngine(name string, et bool) *engine {
 	ctx := context.Background()
 	{
-		e := &engine{name: name, rt: wazero.NewRuntimeWithConfig(ctx, engineConfig(name))}
+		e := &engine{name: name, et: et, rt: wazero.NewRuntimeWithConfig(ctx, engineConfig(name, et))}
 		wasi_snapshot_preview1.MustInstantiate(ctx, e.rt)
 		_, err := e.rt.NewHostModuleBuilder("env").
 			NewFunctionBuilder().WithGoModuleFunction(api.GoModuleFunc(e.hop), []api.ValueType{api.ValueTypeI32}, []api.ValueType{api.ValueTypeI32}).Export("hop").
@@ -340,6 +342,7 @@ type finding struct {
 type runner struct {
 	eng      *engine
 	ctx      context.Context
+	opCtx    context.Context // context of the current operation's guest calls (top level and nested)
 	inst     [nSlot]*rinst
 	shm      [2]*rinst // owner and importer of the shared memory
 	hung     bool      // a call did not return: this runner's runtime is abandoned
@@ -485,8 +488,12 @@ func (r *runner) instantiate(slot int, small bool) error {
 // call invokes f through Call or, when the current operation says so, through
 // CallWithStack.
 func (r *runner) call(f api.Function, args ...uint64) ([]uint64, error) {
+	ctx := r.ctx
+	if r.opCtx != nil {
+		ctx = r.opCtx
+	}
 	if r.cur == nil || !r.cur.Stack {
-		return f.Call(r.ctx, args...)
+		return f.Call(ctx, args...)
 	}
 	nres := len(f.Definition().ResultTypes())
 	n := len(args)
@@ -495,7 +502,7 @@ func (r *runner) call(f api.Function, args ...uint64) ([]uint64, error) {
 	}
 	stack := make([]uint64, n, n+1)
 	copy(stack, args)
-	if err := f.CallWithStack(r.ctx, stack); err != nil {
+	if err := f.CallWithStack(ctx, stack); err != nil {
 		return nil, err
 	}
 	return stack[:nres], nil
@@ -525,6 +532,9 @@ func (r *runner) exec(o *op) (res []uint64, err error) {
 	case "strap":
 		return r.call(r.shm[o.Which].fns["atrap"][0], uint64(o.K), 0)
 	case "start":
+		if r.opCtx != nil {
+			ctx = r.opCtx
+		}
 		cm, cfg := r.eng.cm[2], wazero.NewModuleConfig().WithName("tmp").WithStartFunctions()
 		if o.Cfg {
 			cm, cfg = r.eng.cm[3], wazero.NewModuleConfig().WithName("tmp").WithStartFunctions("boot")
@@ -590,6 +600,23 @@ func allFailLabels(o *op) string {
 	return strings.Join(out, "+")
 }
 
+// classFamily: ok | trap | stack-overflow | panic | exit
+func classFamily(c string) string {
+	switch {
+	case strings.HasPrefix(c, "ok"):
+		return "ok"
+	case strings.HasPrefix(c, "trap"):
+		return "trap"
+	case strings.HasPrefix(c, "stack"):
+		return "stack-overflow"
+	case strings.HasPrefix(c, "panic"):
+		return "host-panic"
+	case strings.HasPrefix(c, "exit"):
+		return "exit"
+	}
+	return "other"
+}
+
 func where(o *op) string {
 	switch {
 	case o.Kind == "start":
@@ -620,6 +647,26 @@ func (r *runner) probe(i int, o *op, failing bool) string {
 		r.probes++
 		if failing {
 			r.pfProbes++
+		}
+		if closed := ri.mod.IsClosed(); closed && !want.Closed {
+			// closed although the model says open: by what?
+			_, err := ri.fns["inc"][0].Call(ctx)
+			var ee *sys.ExitError
+			if errors.As(err, &ee) && (ee.ExitCode() == sys.ExitCodeContextCanceled || ee.ExitCode() == sys.ExitCodeDeadlineExceeded) {
+				why := "canceled"
+				if ee.ExitCode() == sys.ExitCodeDeadlineExceeded {
+					why = "deadline-exceeded"
+				}
+				r.report(i, fmt.Sprintf("closed-by-context-done-after-call-returned:%s:%s:after-%s-call", r.eng.name, why, classFamily(o.WantClass)),
+					fmt.Sprintf("op %d %s (outcome %s, context %s): slot %d is closed (%v) although its calls had returned before their context was done", i, o.desc(), o.WantClass, ctxNames[o.Ctx], s, err))
+				fmt.Fprintf(&sb, "[%d closed by context]", s)
+				continue
+			}
+		}
+		if want.Present && !want.Closed {
+			if reg := r.eng.rt.Module(slotNames[s]); reg != ri.mod {
+				bad("registry", fmt.Sprintf("Runtime.Module(%q) no longer returns the instance", slotNames[s]))
+			}
 		}
 		if closed := ri.mod.IsClosed(); closed != want.Closed {
 			bad("closed", fmt.Sprintf("IsClosed()=%v, model says %v", closed, want.Closed))
@@ -716,6 +763,16 @@ func (r *runner) probe(i int, o *op, failing bool) string {
 		return sb.String()
 	}
 	for k := range sv {
+		var ee *sys.ExitError
+		if errors.As(serr[k], &ee) && (ee.ExitCode() == sys.ExitCodeContextCanceled || ee.ExitCode() == sys.ExitCodeDeadlineExceeded) {
+			why := "canceled"
+			if ee.ExitCode() == sys.ExitCodeDeadlineExceeded {
+				why = "deadline-exceeded"
+			}
+			r.report(i, fmt.Sprintf("closed-by-context-done-after-call-returned:%s:%s:after-%s-call", r.eng.name, why, classFamily(o.WantClass)),
+				fmt.Sprintf("op %d %s (outcome %s, context %s): an instance of the shared-memory pair is closed (%v) although its calls had returned before their context was done", i, o.desc(), o.WantClass, ctxNames[o.Ctx], serr[k]))
+			continue
+		}
 		if serr[k] != nil || len(sv[k]) != 1 || sv[k][0] != o.AfterShm {
 			r.report(i, fmt.Sprintf("state:%s:%s:shared-memory", r.eng.name, after),
 				fmt.Sprintf("op %d %s: atomic probe %d of the shared memory = %v, %v; model says %#x", i, o.desc(), k, sv[k], serr[k], o.AfterShm))
@@ -756,7 +813,7 @@ func (r *runner) guarded(i int, o *op, what string, f func(), control func(ctl *
 	go func() {
 		defer close(ctlDone)
 		ctx := context.Background()
-		ce := newEngine(r.eng.name)
+		ce := newEngine(r.eng.name, r.eng.et)
 		defer ce.rt.Close(ctx)
 		ctl := &runner{eng: ce, ctx: ctx}
 		ce.active = ctl
@@ -805,7 +862,7 @@ func runHistory(e *engine, ops []*op, probeSel func(i int) bool, log bool) *runn
 	defer func() {
 		if r.hung {
 			// a goroutine is stuck inside this runtime: leave it alone, later histories get fresh runtimes
-			engines = nil
+			engines = map[bool][]*engine{}
 			return
 		}
 		e.active = nil
@@ -830,6 +887,8 @@ func runHistory(e *engine, ops []*op, probeSel func(i int) bool, log bool) *runn
 		}
 		var res []uint64
 		var err error
+		opCtx, cancel := opContext(o.Ctx, e.et)
+		r.opCtx = opCtx
 		opDone := make(chan struct{})
 		go func() {
 			defer close(opDone)
@@ -841,7 +900,26 @@ func runHistory(e *engine, ops []*op, probeSel func(i int) bool, log bool) *runn
 			r.inconcl = append(r.inconcl, "operation-did-not-return")
 			break
 		}
+		r.opCtx = nil
 		got := classify(err)
+		// The call has returned. Its context becomes done only now, which must have no effect.
+		if cancel != nil {
+			if opCtx.Err() != nil {
+				// a deadline passed while the call was still running: closing the module is then legitimate
+				cancel()
+				r.inconcl = append(r.inconcl, "deadline-passed-during-call")
+				break
+			}
+			if o.Ctx == ctxShortTimeout && e.et {
+				<-opCtx.Done()
+			}
+			cancel()
+			// let a goroutine that still watches the context act before the probes look
+			runtime.Gosched()
+			if got != "ok" {
+				time.Sleep(300 * time.Microsecond)
+			}
+		}
 		line := fmt.Sprintf("%d %s -> %s", i, o.Kind, got)
 		label := fmt.Sprintf("%s/%s:%s", o.Kind, failLabel(o), where(o))
 		if got != o.WantClass {
@@ -870,6 +948,11 @@ func runHistory(e *engine, ops []*op, probeSel func(i int) bool, log bool) *runn
 		}
 		if r.hung {
 			break // the transcript line of this operation is incomplete: not compared
+		}
+		if i == len(ops)-1 && len(r.findings) == 0 {
+			// second probe round at the end of the history, after stray goroutines had time to act
+			time.Sleep(3 * time.Millisecond)
+			line += " | final " + r.probe(i, o, false)
 		}
 		r.trans = append(r.trans, line)
 		if len(r.findings) > 0 {
@@ -908,6 +991,40 @@ func (r *runner) checkModules(i int, o *op, label string) {
 		r.report(i, fmt.Sprintf("host-calls-differ:%s:%s", r.eng.name, label),
 			fmt.Sprintf("op %d %s: %d host function calls observed, model says %d\nseen: %v\nwant: %v", i, o.desc(), len(r.modSeen), len(o.WantMods), r.modSeen, o.WantMods))
 	}
+}
+
+// Context flavours of an operation's calls.
+const (
+	ctxBackground = iota
+	ctxCancelAfter
+	ctxShortTimeout
+	ctxLongTimeoutCancelAfter
+	ctxValueWrappedCancelAfter
+)
+
+var ctxNames = []string{"Background", "WithCancel(cancelled after return)", "WithTimeout(30ms, expires after return)", "WithTimeout(1h)+cancel after return", "WithValue(WithCancel), cancelled after return"}
+
+type ctxKey struct{}
+
+// opContext builds the context of one operation. The short timeout is only
+// used on runtimes that watch contexts (elsewhere it would be plain waiting).
+func opContext(flavour int, et bool) (context.Context, context.CancelFunc) {
+	bg := context.Background()
+	switch flavour {
+	case ctxCancelAfter:
+		return context.WithCancel(bg)
+	case ctxShortTimeout:
+		if !et {
+			return context.WithCancel(bg)
+		}
+		return context.WithTimeout(bg, 30*time.Millisecond)
+	case ctxLongTimeoutCancelAfter:
+		return context.WithTimeout(bg, time.Hour)
+	case ctxValueWrappedCancelAfter:
+		c, cancel := context.WithCancel(bg)
+		return context.WithValue(c, ctxKey{}, "c06"), cancel
+	}
+	return bg, nil
 }
 
 func trunc(s string, n int) string {
